@@ -1,6 +1,7 @@
 package app
 
 import (
+	"github.com/ethereum/go-ethereum/common"
 	abcitypes "github.com/tendermint/tendermint/abci/types"
 	"encoding/gob"
 	"io"
@@ -26,6 +27,8 @@ var vfFS struct {
 	tmpPath   string
 	handle    *os.File
 	steps     int
+	leftover     bool // a temporary file of an interrupted earlier save exists
+	leftoverKept bool // ... and was not truncated when the temporary file was opened
 }
 
 func vfCrashPoint() {
@@ -51,6 +54,24 @@ func vfStubCreate(name string) (*os.File, error) {
 	return vfFS.handle, nil
 }
 
+// Opening the temporary file without truncation appends to whatever an interrupted earlier save
+// left behind: the result is not the encoding of the state.
+//
+//verif:stub os.OpenFile
+func vfStubOpenFile(name string, flag int, perm os.FileMode) (*os.File, error) {
+	vfAssert(name != vfFS.livePath, "live-state-file-is-never-opened-for-writing")
+	if vfBool("create-fails") {
+		vfCrashPoint()
+		return nil, vfErr("open")
+	}
+	vfFS.tmpPath = name
+	vfFS.tmp = vfFile{exists: true, version: 1}
+	vfFS.leftoverKept = vfFS.leftover && flag&os.O_TRUNC == 0
+	vfFS.handle = &os.File{}
+	vfCrashPoint()
+	return vfFS.handle, nil
+}
+
 //verif:stub encoding/gob.NewEncoder
 func vfStubNewEncoder(w io.Writer) *gob.Encoder {
 	f, ok := w.(*os.File)
@@ -60,12 +81,17 @@ func vfStubNewEncoder(w io.Writer) *gob.Encoder {
 
 //verif:stub (*encoding/gob.Encoder).Encode
 func vfStubEncode(e *gob.Encoder, v interface{}) error {
+	if a, ok := v.(*ShutterApp); ok && a.CheckTxState != nil {
+		// the mempool bookkeeping of the committed block differs from node to node; what is saved
+		// must be the state every node has after Commit
+		vfAssert(len(a.CheckTxState.TxCounts) == 0 && (a.CheckTxState.NonceTracker == nil || len(a.CheckTxState.NonceTracker.RandomNonces) == 0), "saved-state-carries-no-mempool-bookkeeping")
+	}
 	if vfBool("encode-fails") {
 		vfFS.tmp.complete = false // some prefix was written
 		vfCrashPoint()
 		return vfErr("encode")
 	}
-	vfFS.tmp.complete = true
+	vfFS.tmp.complete = !vfFS.leftoverKept
 	vfFS.tmp.synced = false
 	vfCrashPoint()
 	return nil
@@ -115,6 +141,7 @@ func H_C13_persist_file_protocol() {
 	vfFSHadLive = vfBool("previous-file-exists")
 	vfFS.live = vfFile{exists: vfFSHadLive, version: 0, complete: true, synced: true}
 	vfFS.tmp, vfFS.tmpPath, vfFS.handle, vfFS.steps = vfFile{}, "", nil, 0
+	vfFS.leftover, vfFS.leftoverKept = vfBool("leftover-temporary-file"), false
 	err := app.PersistToDisk()
 	vfCrashPoint()
 	if err == nil {
@@ -205,6 +232,11 @@ func H_C13_commit_persists() {
 	vfFSHadLive = vfBool("previous-file-exists")
 	vfFS.live = vfFile{exists: vfFSHadLive, version: 0, complete: true, synced: true}
 	vfFS.tmp, vfFS.tmpPath, vfFS.handle, vfFS.steps = vfFile{}, "", nil, 0
+	vfFS.leftover, vfFS.leftoverKept = vfBool("leftover-temporary-file"), false
+	// transactions seen by CheckTx during the block (they differ from node to node)
+	if vfBool("mempool-traffic") {
+		app.CheckTxState.TxCounts[vfAny[common.Address]("mempool-sender")] = 1
+	}
 	_ = app.Commit()
 	vfCrashPoint()
 	if app.Gobpath == "" {
